@@ -194,7 +194,7 @@ BOUNDED_NOTE = ("NOT a proof: bound = G1 programs of nesting depth <= 2 plus the
                 "with are not generated")
 PROPS["C01"] = dict(
     level="exploration", contracts=["contracts.inspect311", "contracts.c01_lemmas", "contracts.lowlevel", "contracts.inspect310"],
-    unit_filter=lambda u: not u.name.startswith("C20.") and u.name != "C02.inspect_frame_310.stack",
+    unit_filter=lambda u: (not u.name.startswith("C20.") or u.name == "C20.contexts_active_in_frame") and u.name != "C02.inspect_frame_310.stack",
     legs=[dict(name="c02_exit_names", cmd="PYTHONPATH={repo} " + PY312 + " legs/c02_exit_names.py"),
           dict(name="c02_exit_names_py311", cmd="PYTHONPATH={repo} " + PY311 + " legs/c02_exit_names.py")] + old_pythons("c02_exit_names", "c02_exit_names.py") + [
           dict(name="c01_huge_consts", cmd="PYTHONPATH={repo} " + PY312 + " legs/c01_huge_consts.py"),
@@ -215,8 +215,8 @@ PROPS["C01"] = dict(
           "not make this a proof.",
     note=BOUNDED_NOTE)
 PROPS["C02"] = dict(
-    level="exploration", contracts=["contracts.inspect311", "contracts.inspect310", "contracts.c13"],
-    unit_filter=lambda u: u.name in ("C07.inspect_frame_311", "C02.inspect_frame_310.stack", "C13.push"),
+    level="exploration", contracts=["contracts.inspect311", "contracts.inspect310", "contracts.c13", "contracts.lowlevel"],
+    unit_filter=lambda u: u.name in ("C07.inspect_frame_311", "C02.inspect_frame_310.stack", "C13.push", "C20.contexts_active_in_frame"),
     legs=[dict(name="c02_exit_names", cmd="PYTHONPATH={repo} " + PY312 + " legs/c02_exit_names.py"),
           dict(name="c02_exit_names_py311", cmd="PYTHONPATH={repo} " + PY311 + " legs/c02_exit_names.py")] + old_pythons("c02_exit_names", "c02_exit_names.py") + [
           dict(name="c13_options", cmd="PYTHONPATH={repo} " + PY312 + " legs/c13_options.py"), g1("running", PY312, "py312"), g1("running", PY311, "py311"),
